@@ -99,6 +99,9 @@ def variants(obj, rng, pool, per_field=8, others=(), depth=0):
                 yield ('%s%s' if label.startswith('.') else '%s=%s') % (f.name, label), attr.evolve(obj, **{f.name.lstrip('_'): v})
             except Exception:  # pylint: disable=broad-except
                 continue
+    if depth == 0:
+        for d, v in inplace_variants(obj):
+            yield d, v
 
 
 def nested_parsables(obj, depth=0, seen=None):
@@ -126,3 +129,36 @@ def nested_parsables(obj, depth=0, seen=None):
             out.append(k)
         out += nested_parsables(k, depth + 1, seen)
     return out
+
+
+def inplace_variants(obj, limit=10):
+    """(description, object): deep copies of obj with ONE nested part edited in place (an element of a vector assigned a
+    longer value, a flag of a nested structure flipped, ...).  These are objects a caller can build as well, and the ones
+    on which cached sizes of enclosing containers go stale."""
+    import copy
+    from cryptoparser.common.base import ArrayBase
+    from . import objects
+    try:
+        n = len(objects.mutable_parts(obj))
+    except Exception:  # pylint: disable=broad-except
+        return
+    done = 0
+    for i in range(n):
+        if done >= limit:
+            break
+        try:
+            dup = copy.deepcopy(obj)
+            parts = objects.mutable_parts(dup)
+            if i >= len(parts):
+                continue
+            path, part = parts[i]
+            if '[' not in path and path.count('.') < 2:
+                continue          # top-level containers are covered by the constructor variants
+            if not (isinstance(part, ArrayBase) or attr.has(type(part))) or part is objects.mutable_parts(obj)[i][1]:
+                continue          # plain containers carry no validator to tell whether the edit is legal; shared parts are C13's
+            what = objects.edit_in_place(part, i)
+        except Exception:  # pylint: disable=broad-except
+            continue
+        if what:
+            done += 1
+            yield 'inplace%s:%s' % (path, what), dup
